@@ -58,6 +58,9 @@ CHECKS = {
  "C07": (True, MC, "exploration of facet configurations x positions x placements of violating / boundary values, executed on the compiled generated client against a loopback listener",
          "For each facet configuration (every facet kind on string/int/long, pairs, simple-type derivation chains of depth 2 and 3) a WSDL is generated in which the restricted type occurs at 9 positions (direct, optional, first and second item of a repeated member, nested one and two levels, attribute, member inherited through a complex extension, header part). Every placement (all boundary-valid; each position x each violating value; pairs; a triple) is built as a complete request envelope; check_restrictions(None) must fail exactly when some placed value violates some facet of its type's derivation chain. For all-valid and single placements the client method is called: a violating request must return the restriction error with zero connections accepted by the listener, a valid one exactly one connection.",
          "One violating value alphabet per configuration; quick tier uses neighbouring pairs only. The restriction trait and method are discovered through an impl in the emitted file.", "4/C07"),
+ "C10": (True, MC, "exhaustive enumeration of adversarial namespace-URI sets x ways of declaring them x import orders on the real generator; bijections read from the syn item model",
+         "11 adversarial URIs (equal last segments, equal three-letter abbreviations, dots and dashes, URN, upper case, trailing slash, leading digit, 'xml', non-ASCII): every single URI, every ordered pair x 3 ways of introducing the second namespace (root xmlns, nested xmlns on the referring component, targetNamespace of an imported file only), ordered triples x both import orders, families of 2..12 URIs with one abbreviation, two 6-sets (quick 490 states, thorough about 1.9 k). In each output the relation prefix -> URI over all namespaces maps and module -> URI over all structs must be bijections, prefixes must be NCNames, no module may hold two items of one name, every component must sit in its namespace's module and every member prefix must be bound to the member's declaring namespace; a subset is compiled.",
+         "URIs are drawn from a fixed adversarial alphabet; sets of more than three URIs only for the equal-abbreviation families and two 6-sets.", "4/C10"),
 }
 
 NOT_YET = {
